@@ -172,6 +172,30 @@ def check(ctx, case):
             if not same:
                 fails.append(Fail(kind="O", what="A %s B after other operators on the same operands differs from fresh operands" % op,
                                   impl=str(r)[:300], expected=str(fr)[:300]))
+        # the same two objects again after ONE of them was moved / scaled in place (still crossing or not: whatever the
+        # new position gives): the operators must see the new geometry
+        from .. import opcases as OC
+        for name, act, g in (("move", lambda: A.move(F(1, 3), F(-1, 4)), lambda p: (p[0] + F(1, 3), p[1] - F(1, 4))),
+                             ("scale", lambda: B.scale(F(5, 4), F(3, 4)), lambda p: (p[0] * F(5, 4), p[1] * F(3, 4)))):
+            if fails:
+                break
+            if I.outcome(act)[0] != "ok":
+                break
+            if name == "move":
+                a = U.map_shape(a, g)
+            else:
+                b = U.map_shape(b, g)
+            if not OC.env_general_position([a, b]):
+                break
+            for op in ops[:2]:
+                r = I.outcome(lambda: I.shape_data(f[op](A, B)))
+                fr = I.outcome(lambda: I.shape_data(f[op](I.mk_shape(a), I.mk_shape(b))))
+                ctx.count("order-after-%s:%s" % (name, op))
+                same = r[0] == fr[0] and (r[0] != "ok" or (r[1][0] == fr[1][0] and _region_same(r[1], fr[1], a, b)))
+                if not same:
+                    fails.append(Fail(kind="O", what="A %s B on the same objects after an in-place %s of one of them differs from fresh operands at the new place" % (op, name),
+                                      impl=str(r)[:300], expected=str(fr)[:300]))
+                    break
         return fails
     if "mixed" in case:
         specs, perm = case["mixed"], list(case["perm"])
